@@ -65,7 +65,12 @@ def cause(mol, u, v, kind):
     return f"{ru}->{rv}" + ("" if eu == ev else ":next-element")
 
 
+EXPLICIT_H = False
+
+
 def _key(what, kind, c):
+    if EXPLICIT_H:
+        return "C17:explicit-hydrogen-inside-token-shifts-descriptor-atoms"
     return "C17:listed-source-termination-edges" if c == "listed-source" else f"C17:{what}:{kind}:{c}"
 
 
@@ -107,6 +112,9 @@ def run(tier):
             raise MachineryError(f"no atom graph exported for {m.name}")
         states += r.distinct
         scale = weight_scale(m)
+        global EXPLICIT_H
+        # verified cause of a known defect: a multi-atom token with a hydrogen written explicitly inside it
+        EXPLICIT_H = any(isinstance(x, str) and "[H]" in x and len(t.chem()["atoms"]) > 1 and x != "[H]" for t in m.tokens() for x in t.items)
         sz = m.name.endswith("-sz")
         try:
             nodes, edges = impl_atom_graph(g, text, sz)
